@@ -45,6 +45,7 @@ Universe == {
   Ev("k9", "b", 5, 4, <<Tg("e", "p2"), Tg("e", "x2")>>),        \* foreign replaceable / addressable by id
   Ev("k10", "a", 5, 2, <<Tg("e", "g1")>>),                     \* names an ephemeral event of its author
   Ev("k11", "b", 5, 5, <<Tg("e", "k1")>>),                     \* foreign request naming a deletion request
+  Ev("k12", "a", 5, 2, <<Tg("e", "r1"), Tg3("e", "r1")>>),     \* names one target twice (a third request for r1)
   Ev("y6", "a", 30002, 4, <<Tg1("d"), Tg("d", "x")>>),          \* value-less d tag first: the address is still d = ""
   \* a repeated tag followed by another one (index maintenance)
   Ev("r5", "b", 1, 3, <<Tg("t", "z"), Tg("t", "z"), Tg("p", "c")>>)
